@@ -42,3 +42,25 @@ for _k, _v in {
  "C20": "Round 8: C20/waitgroup-local.",
 }.items():
     EXTRA_NOTES[_k] = (EXTRA_NOTES.get(_k, "") + " " + _v).strip()
+
+# Rules added after the ninth and tenth seeded rounds.
+for _k, _v in {
+ "C01": "Round 10: C01/ansi-specimens (the escape-sequence pattern accepts fifteen specimen control sequences whole; membership of constants in the language of a constant, no library code runs).",
+ "C02": "Round 10: C02/chunk-whole (the chunk loop appends a plain sub-slice of the received data).",
+ "C03": "Round 10: C03/input-immutable (a response's Input is written by its constructor only).",
+ "C04": "Round 10: C04/level-cache-writers also rejects resetting the cached level outside the function that determines it.",
+ "C05": "Round 10: C05/found-netconf-reader, C05/get-prompt-once.",
+ "C06": "Round 10: C06/waits-poll (read-until loops only sleep between polls of Channel.Read), C06/patterns-compile, C06/repeat-guarded.",
+ "C07": "Round 9: C07/child-stored. Round 10: C07/closed-result-nil.",
+ "C08": "Round 10: C08/own-id requires the filing decision to depend on the message-id match only; C08/no-shared-defaults.",
+ "C10": "Round 10: C10/patterns-compile (every constant pattern compiled lazily parses under RE2).",
+ "C12": "Round 10: C12/echo-error-surfaces (the propagate obligations of the send-input / interactive workers).",
+ "C13": "Round 10: C13/settings-writers (generic driver).",
+ "C14": "Round 10: C14/password-prompt-anchored.",
+ "C16": "Round 9: C16/child-stored. Round 10: C16/found-queue, C16/found-read-loop.",
+ "C17": "Round 9: C17/loopvar-escapes. Round 10: C17/embedded-first (an advertised name reaches the embedded lookup first and as given), C17/found-ansi.",
+ "C18": "Round 10: C18/found-queue, C18/deadline.",
+ "C19": "Round 10: C19/no-shared-defaults; settings-writers rejects a write of a setting inside a Close method and accepts initialisation of a freshly allocated object, default filling of the call's own options object, and helpers only constructors call.",
+ "C20": "Round 10: C20/no-reentrant-lock (must-lockset: no same-receiver callee re-acquires a held lock).",
+}.items():
+    EXTRA_NOTES[_k] = (EXTRA_NOTES.get(_k, "") + " " + _v).strip()
